@@ -34,7 +34,7 @@ fn shell_line(r : &XRule, k : usize) -> String
     let mut work : Vec<String> = r.src.iter().map(|p| test_expr(p)).collect();
     /* like vcmd: nothing is written unless every target's directory is there */
     for t in r.tg.iter() { if let Some(i) = t.rfind('/') { work.push(format!("test -d {}", sq(&t[..i]))); } }
-    if r.kind == "fail" { work.push("false".to_string()); }
+    if r.kind == "fail" || r.kind == "kill" { work.push("false".to_string()); }
     else
     {
         for (i, t) in r.tg.iter().enumerate()
@@ -44,6 +44,7 @@ fn shell_line(r : &XRule, k : usize) -> String
             {
                 "copy" => cat_expr(&r.src[0]),
                 "const" => format!("printf '%s' {}", sq(&format!("K({})", r.id))),
+                "empty" => "true".to_string(),
                 "sel" => format!("{{ printf '%s' {}; {}; printf ']'; }}", sq(&format!("F({},{})[", r.id, i + 1)), cat_expr(&r.src[i % r.src.len()])),
                 _ => format!("{{ printf '%s' {}; {} printf ']'; }}", sq(&format!("F({},{})[", r.id, i + 1)),
                         r.src.iter().enumerate().map(|(j, p)| format!("{}{};", if j > 0 { "printf '%s' '|'; " } else { "" }, cat_expr(p))).collect::<Vec<_>>().join(" ")),
@@ -56,6 +57,8 @@ fn shell_line(r : &XRule, k : usize) -> String
     }
     s.push_str(&format!("( {} ) 2>/dev/null; rc=$?; ", work.join(" && ")));
     s.push_str(&format!("{{ printf 'E\\037%s' \"$rc\"; {} }} > {}.e; exit $rc", r.tg.iter().map(|p| format!("printf '\\037'; cat {} 2>/dev/null || printf 'MISSING';", sq(p))).collect::<Vec<_>>().join(" "), x));
+    /* a command that is ended by a signal (no exit code at all): the shell kills itself once its record is written */
+    if r.kind == "kill" { s = s.replace("; exit $rc", "; kill -KILL $$"); }
     s
 }
 
@@ -71,7 +74,7 @@ fn rid(r : &XRule, k : usize) -> String { format!("R{{{}}}{{{}}}{{{}}}", r.tg.jo
 
 fn rules_json(rules : &Vec<XRule>) -> Value
 {
-    Value::Array(rules.iter().enumerate().map(|(k, r)| json!({"tg" : r.tg, "src" : r.src, "cl" : command_lines(r, k), "kind" : r.kind, "id" : r.id,
+    Value::Array(rules.iter().enumerate().map(|(k, r)| json!({"tg" : r.tg, "src" : r.src, "cl" : command_lines(r, k), "kind" : if r.kind == "kill" { "fail" } else { r.kind.as_str() }, "id" : r.id,
         "omit" : r.omit, "mask" : r.mask, "x" : r.x, "pf" : r.pf})).collect())
 }
 
@@ -434,7 +437,7 @@ pub fn real_histories(bin : &str, base : &str, n : usize, seed : u64, prof : &st
         if prof == "realwide" { all.extend(wide_history(bin, base, k, seed, &mut rng)); continue; }
         let mut pr = profile(if with_env { "env" } else { "core" }); pr.max_rules = 4; pr.max_steps = 8;
         let (mut rules, leaves) = gen_rules(&mut rng, &pr);
-        for r in rules.iter_mut() { if r.kind == "kill" { r.kind = "fail".to_string(); } r.pk = false; if !with_env { r.mask.clear(); } r.layout = 0; r.flat = true; }
+        for r in rules.iter_mut() { r.pk = false; if !with_env { r.mask.clear(); } r.layout = 0; r.flat = true; }
         /* one scenario in three has a directory among the sources of some of its rules */
         let with_dir = rng.chance(1, 3);
         if with_dir { let mut any = false; for r in rules.iter_mut() { if !any || rng.chance(1, 3) { r.src.push(DIRLEAF.to_string()); r.src.sort(); any = true; } } }
